@@ -1195,12 +1195,47 @@ def comprehension(it, e, env, kind):
     return d
 
 
+def filtered_sequence(it, e, env, coll):
+    """[x for x in xs if c(x)] over the keys of a symbolic dict or a list of strings: a fresh list r with
+    x in r  <=>  x in xs and c(x)   (plus a witness fact for non-emptiness); order and multiplicity are
+    left unspecified."""
+    from .interp import Env
+    ctx = it.ctx
+    gen = e.generators[0]
+    if not (isinstance(gen.target, ast.Name) and isinstance(e.elt, ast.Name) and e.elt.id == gen.target.id):
+        raise Unsupported('filtered comprehension over a symbolic collection must select the elements themselves')
+    k = ctx.fresh(z3.StringSort(), gen.target.id)
+    if isinstance(coll, (VDict, VKeys)):
+        arr = coll.to_arr() if isinstance(coll, VDict) else coll.arr
+        dom = lambda x: arr[x] != pv.PAbsent
+    elif isinstance(coll, (VList, VSeqIter)) and getattr(coll, 'elem', 'any') == 'str':
+        dom = lambda x: z3.Contains(coll.seq, z3.Unit(x))
+    else:
+        raise Unsupported('filtered comprehension over %r' % (coll,))
+    cenv = Env(parent=env)
+    cenv.set(gen.target.id, SStr(k))
+    ctx.spec_depth += 1
+    try:
+        conds = [pv.as_term_bool(truthy(it.eval(c, cenv))) for c in gen.ifs]
+    finally:
+        ctx.spec_depth -= 1
+    cond = z3.And(*conds) if len(conds) > 1 else conds[0]
+    r = ctx.fresh(z3.SeqSort(z3.StringSort()), 'filt')
+    ctx.assume(z3.ForAll([k], z3.Contains(r, z3.Unit(k)) == z3.And(dom(k), cond)))
+    ctx.assume(z3.Implies(z3.Length(r) > 0, z3.And(dom(r[0]), z3.substitute(cond, (k, r[0])))))
+    ctx.note('filtered comprehension over a symbolic collection encoded by its membership predicate '
+             '(order and multiplicity unspecified)')
+    return VList(seq=r, elem='str')
+
+
 def mapped_sequence(it, e, env, kind, coll):
     """[f(x) for x in xs] over a sequence of symbolic length: a fresh sequence r with
     len(r) == len(xs) and r[i] == f(xs[i]) for all i (no unrolling)."""
     from .interp import Env
-    if kind not in ('list', 'gen') or len(e.generators) != 1 or e.generators[0].ifs:
-        raise Unsupported('comprehension over a symbolic collection (only unfiltered maps are supported)')
+    if kind in ('list', 'gen') and len(e.generators) == 1 and e.generators[0].ifs:
+        return filtered_sequence(it, e, env, coll)
+    if kind not in ('list', 'gen') or len(e.generators) != 1:
+        raise Unsupported('comprehension over a symbolic collection (only single-generator lists are supported)')
     ctx = it.ctx
     typed = isinstance(coll, VSeqIter) or (isinstance(coll, VList) and coll.symbolic)
     seq = coll.seq if typed else it.seq_term(coll, getattr(e, 'lineno', None))
